@@ -457,3 +457,86 @@ def miri_run(prop_id, section, seed, fold, procs=12, ops=100, timeout_s=1500):
         fold.add_result(json.load(open(out)))
         fold.count("miri_processes_clean_%s" % section, 1)
     fold.count("miri_sections_run", 1)
+
+
+# ---------------------------------------------------------------------------------------------
+# Compiler sanitizers (nightly): one sanitizer family per build, the workload repeated per build.
+
+SAN = {
+    "tsan": {"rustflags": "-Zsanitizer=thread", "cflags": "-fsanitize=thread", "build_std": True,
+             "opt_env": "TSAN_OPTIONS", "opts": "halt_on_error=0 exitcode=0 report_signal_unsafe=0 history_size=4",
+             "markers": ["WARNING: ThreadSanitizer"]},
+    "asan": {"rustflags": "-Zsanitizer=address -Cforce-frame-pointers=yes", "cflags": "-fsanitize=address -fno-omit-frame-pointer", "build_std": False,
+             "opt_env": "ASAN_OPTIONS", "opts": "halt_on_error=0 exitcode=0 detect_leaks=1 detect_stack_use_after_return=0",
+             "markers": ["ERROR: AddressSanitizer", "ERROR: LeakSanitizer"]},
+}
+TRIPLE = "x86_64-unknown-linux-gnu"
+
+
+def sanitizer_build(kind, package, bins):
+    ensure_lockfile()
+    cfg = SAN[kind]
+    env = base_env()
+    env["CARGO_TARGET_DIR"] = os.path.join(TARGET_BASE, "target-" + kind)
+    env["CC"] = "clang-14"
+    env["CFLAGS"] = cfg["cflags"]
+    env["RUSTFLAGS"] = cfg["rustflags"] + " " + GUARD_FLAGS
+    cmd = ["cargo", "+nightly", "build", "--offline", "--release", "--target", TRIPLE, "-p", package]
+    if cfg["build_std"]:
+        cmd.insert(3, "-Zbuild-std")
+    for b in bins:
+        cmd += ["--bin", b]
+    t0 = time.time()
+    p = subprocess.run(cmd, cwd=HARNESS, env=env, stdout=subprocess.PIPE, stderr=subprocess.STDOUT, text=True)
+    if p.returncode != 0:
+        raise BuildError("%s build failed:\n%s" % (kind, "\n".join(p.stdout.splitlines()[-60:])))
+    log("[build] %s %s ok in %.1fs" % (package, kind, time.time() - t0))
+    return os.path.join(TARGET_BASE, "target-" + kind, TRIPLE, "release")
+
+
+def sanitizer_run(spec, kind, tier, seed, fold, shards=8, budget_s=120, extra=None, per_shard_env=None, frame_filter=None):
+    """Runs the spec's binary under a sanitizer build; every report whose stack has a frame in
+    /repo (or matching frame_filter) is a violation, deduplicated by that frame."""
+    import re
+    cfg = SAN[kind]
+    bindir = sanitizer_build(kind, spec["package"], [spec["bin"]])
+    exe = os.path.join(bindir, spec["bin"])
+    outdir = os.path.join(RUNS, spec["id"], kind)
+    logbase = os.path.join(outdir, "sanlog")
+
+    def pse(i):
+        e = {cfg["opt_env"]: cfg["opts"] + " log_path=%s.%d" % (logbase, i)}
+        if per_shard_env:
+            e.update(per_shard_env(i))
+        return e
+
+    res = run_shards(spec["id"], exe, shards, seed, tier, budget_s, extra=extra, events=False, tag=kind, per_shard_env=pse)
+    fold.add_shards(res, kind)
+    reports = 0
+    seen = {}
+    for f in sorted(os.listdir(outdir)):
+        if not f.startswith("sanlog."):
+            continue
+        text = open(os.path.join(outdir, f), errors="replace").read()
+        blocks = re.split(r"(?m)^(?==+\n?(?:WARNING|ERROR): )|(?m)^(?=(?:WARNING|ERROR): (?:Thread|Address|Leak)Sanitizer)", text)
+        for b in blocks:
+            if not any(m in b for m in cfg["markers"]):
+                continue
+            reports += 1
+            frames = re.findall(r"#\d+ (?:0x[0-9a-f]+ in )?(\S+) (/\S+?):(\d+)", b)
+            inrepo = [fr for fr in frames if "/repo/" in fr[1] or (frame_filter and re.search(frame_filter, fr[0]))]
+            head = b.strip().splitlines()[0][:120] if b.strip() else kind
+            if not inrepo:
+                fold.count("%s_reports_without_repo_frame" % kind, 1)
+                key = "no-repo-frame:" + re.sub(r"0x[0-9a-f]+|\d+", "N", head)
+                seen.setdefault(key, b)
+                continue
+            top = inrepo[0]
+            where = top[1].split("/repo/")[-1]
+            sig = "%s:%s:%s:%s" % (spec["id"], kind, re.sub(r"[^A-Za-z]+", "-", head.split(":")[1] if ":" in head else head).strip("-").lower()[:40], where)
+            fold.violation(sig, [{"detail": b[:3000], "replay": {"sanitizer": kind, "seed": seed}}])
+    fold.count("%s_reports" % kind, reports)
+    fold.count("%s_shards_run" % kind, len(res))
+    if seen:
+        fold.notes.append("%s reports without a frame in /repo (not judged): %s" % (kind, "; ".join(list(seen)[:4])))
+    return res
